@@ -1,7 +1,7 @@
 (* Extraction of the executable models and specifications (ExtrOcamlBasic only; Z kept as
    the extracted inductive). *)
 Require Import MV.Base.Prelude MV.Base.CInt MV.Base.Index MV.Base.BorderSpec.
-Require Import MV.Gen.Scalar_gen MV.Model.Filter MV.Model.Morph MV.Model.Convolve.
+Require Import MV.Gen.Scalar_gen MV.Model.Filter MV.Model.Morph MV.Model.Convolve MV.Model.Filters.
 Require Extraction.
 Require Import ExtrOcamlBasic.
 Extraction Language OCaml.
@@ -12,4 +12,5 @@ Extraction "model.ml"
   erode_sub dilate_add subm erode_sub_bool dilate_add_bool markerinfo_lt
   erode_generic dilate_generic erode_spec_all dilate_spec_all nbh_inside all_positions
   convolve_generic conv_spec_all row_fast row_spec
+  rank_filter median_rank mean_filter template_match find2d samples_spec ssd_spec count_lt count_le
   mh_open mh_close mh_cdilate mh_cerode mh_tophat_open mh_tophat_close psubm.
